@@ -271,6 +271,11 @@ def judge(w: World, case, obs):
             after = [k for k in names[first_fin + 1 :] if k != "ind_finished"]
             if after:
                 v("indication-after-transaction-finished", side=side, indications=after)
+            # one completion = one indication: the same Transaction-Finished (same transaction, same parameters) is not delivered twice
+            # (a later fault, e.g. the positive ACK limit of the Finished PDU, may end the transaction again with another condition)
+            fins_here = [(tuple(e["tid"]) if e.get("tid") else None, tuple(e["fin"][:3])) for e in evs if e["kind"] == "ind_finished" and e["side"] == side]
+            if len(set(fins_here)) != len(fins_here):
+                v("transaction-finished-delivered-twice-for-one-completion", side=side, indications=[f[1] for f in fins_here])
             if side == "S":
                 if "ind_transaction" in names and names.index("ind_transaction") > first_fin:
                     v("transaction-finished-before-transaction-indication")
